@@ -27,6 +27,8 @@ def run(prog, chk):
     C15.scope_pairing(prog, chk, "A5.reuse-scope")
     identity_transfer(prog, chk)
     specs(prog, chk)
+    from props import geomalg
+    geomalg.check(prog, chk, "C18", floor=4)
 
 
 def template_source(prog, chk):
